@@ -45,6 +45,9 @@ pub struct Input {
     pub mode: Mode,
     /// one vector of rows per input file
     pub files: Vec<Vec<(String, u64)>>,
+    /// per file: does its last line end with a newline? (missing entries
+    /// mean yes)
+    pub trailing_newline: Vec<bool>,
 }
 
 #[derive(Clone, Debug, PartialEq, Eq)]
@@ -121,6 +124,9 @@ impl Input {
                 } else {
                     s.push_str(&format!("{},{}\n", k, v));
                 }
+            }
+            if !self.trailing_newline.get(i).copied().unwrap_or(true) && s.ends_with('\n') {
+                s.pop();
             }
             std::fs::write(&p, s).expect("harness: write input file");
             out.push(p);
@@ -266,6 +272,7 @@ pub fn sorted_build(input: &Input, dir: &Path) -> Result<Vec<u8>, String> {
     let model = input.model();
     let sorted = Input {
         mode: input.mode,
+        trailing_newline: vec![],
         files: vec![model
             .iter()
             .map(|(k, v)| (String::from_utf8_lossy(k).to_string(), *v))
